@@ -103,6 +103,22 @@ def m_C01(tier):
                 cfgs.append(C(mod, alg, ms, False, km, 'dict', fn='pkw', nargs=3, spellings=1))
     cfgs += falsy_configs(tier)
     cfgs += twin_configs(tier)
+    cfgs += rec_configs(tier)
+    return cfgs
+
+
+def rec_configs(tier, algs=ALL):
+    """a recursive function: g(x) evaluates g(x-1) through the wrapper (nested calls while a call is in progress)"""
+    cfgs = []
+    for mod in MODULES:
+        for alg in algs:
+            sizes = (None,) if alg in ('no', 'inf') else ((1, 2) if tier == 'quick' else (1, 2, 3))
+            for ms in sizes:
+                for purge in ((False,) if alg in ('no', 'inf') else (False, True)):
+                    for backend in ('none', 'dict'):
+                        if purge and backend != 'dict':
+                            continue
+                        cfgs.append(C(mod, alg, ms, purge, 'default', backend, fn='rec', nargs=3 if tier == 'quick' else 4, spellings=0))
     return cfgs
 
 
@@ -147,6 +163,8 @@ def m_C05(tier):
             if tier == 'thorough':
                 cfgs.append(C(mod, alg, 3, False, 'default', 'dict', nargs=6, spellings=0, wide=True))
     cfgs += [c for c in twin_configs(tier) if c['alg'] in BOUNDED]
+    cfgs += rec_configs(tier, BOUNDED)
+    cfgs += scale_configs(tier)
     if tier == 'thorough':
         for mod in MODULES:
             for alg in BOUNDED:
@@ -168,6 +186,7 @@ def m_C06(tier):
                     cfgs.append(C(mod, alg, ms, False, 'default', backend, init,
                                   nargs=min(4, ms + 2) if tier == 'quick' else min(5, ms + 2), spellings=1))
     cfgs += narrow_configs(tier)
+    cfgs += scale_configs(tier)
     return cfgs
 
 
@@ -185,6 +204,17 @@ def narrow_configs(tier):
                     backend = 'dict' if m[0] in ('dump', 'load') else 'none'
                     cfgs.append(C(mod, alg, ms, False, 'default', backend, nargs=ms + 2, spellings=0,
                                   narrow=[list(m)], depth=7 if tier == 'quick' else 8, states=4000 if tier == 'quick' else 30000))
+    return cfgs
+
+
+def scale_configs(tier):
+    """code paths that only run for larger parameters: maxsize 30 (LFU then evicts maxsize // 10 = 3 entries at a time),
+    reached with a macro event that fills the cache"""
+    cfgs = []
+    for mod in MODULES:
+        for alg in BOUNDED:
+            for backend in (('none',) if tier == 'quick' else ('none', 'dict')):
+                cfgs.append(C(mod, alg, 30, False, 'default', backend, nargs=35, spellings=0, scale=True, depth=4, states=300 if tier == 'quick' else 3000))
     return cfgs
 
 
@@ -343,6 +373,11 @@ def m_C20(tier):
 def ev_for(prop, cfg, tier):
     n = cfg.get('nargs', 3)
     sp = cfg.get('spellings', 2)
+    if cfg.get('scale'):
+        # fill the cache in one macro event, then single calls around the bound
+        return [('callseq', 0, 30), ('callseq', 0, 28)] + [('call', i) for i in (0, 1, 29, 30, 31, 32, 33)] + [('callx', 0, 3), ('clearks',)]
+    if cfg.get('fn') == 'rec':
+        return call_events(n, sp) + [('clear',), ('dump',), ('load',), ('arch', False), ('arch', True)]
     if cfg.get('twin'):
         return call_events(n, sp) + [('tcall', i) for i in range(n + sp)] + [('tlookup', 0), ('tlookup', n + 1), ('clear',), ('raise', 0, 'Boom')]
     if cfg.get('narrow'):
